@@ -58,6 +58,9 @@ type batch struct {
 	GapUs    []int     `json:"gap_us"`  // gap before each release
 	DropConn int       `json:"drop"`    // downstream connection the client drops mid-batch (-1 none)
 	DropAtMs int       `json:"drop_ms"` // when
+	// Retry: the route has a retry policy (retry_on, 2 retries); a request scripted "retried" is answered 503 on its
+	// first attempt and as scripted for "reply" on the attempt that follows (HTTP pairings)
+	Retry bool `json:"retry,omitempty"`
 }
 
 var xProtos = []string{"bolt", "boltv2", "dubbo", "dubbo-thrift", "tars"}
@@ -76,6 +79,9 @@ func genBatch(rt *rapid.T, pairs []string) batch {
 	scripts := []string{"reply", "reply", "reply", "reply", "reply", "stall", "late", "close", "reset"}
 	if isX {
 		scripts = append(scripts, "twice", "unknown-id")
+	} else if rapid.IntRange(0, 1).Draw(rt, "retryPolicy") == 0 {
+		b.Retry = true
+		scripts = append(scripts, "retried", "retried", "retried")
 	}
 	if rapid.IntRange(0, 2).Draw(rt, "faultFree") == 0 {
 		scripts = []string{"reply"}
@@ -132,6 +138,7 @@ type obs struct {
 	release  map[string]chan struct{}
 	specs    map[string]reqSpec
 	arriveCh chan struct{}
+	attempts map[string]int
 }
 
 func runBatch(rt *rapid.T, b batch) {
@@ -141,7 +148,7 @@ func runBatch(rt *rapid.T, b batch) {
 		parts := strings.Split(b.Pair, ">")
 		down, up = parts[0], parts[1]
 	}
-	o := &obs{arrived: map[string]bool{}, release: map[string]chan struct{}{}, specs: map[string]reqSpec{}, arriveCh: make(chan struct{}, 4*len(b.Reqs)+8)}
+	o := &obs{arrived: map[string]bool{}, release: map[string]chan struct{}{}, specs: map[string]reqSpec{}, arriveCh: make(chan struct{}, 8*len(b.Reqs)+8), attempts: map[string]int{}}
 	for _, r := range b.Reqs {
 		o.release[r.Token] = make(chan struct{})
 		o.specs[r.Token] = r
@@ -179,6 +186,15 @@ func runBatch(rt *rapid.T, b batch) {
 			a.Status = 0
 		}
 		switch sp.Script {
+		case "retried":
+			a.Kind = "reply"
+			o.mu.Lock()
+			o.attempts[r.Token]++
+			first := o.attempts[r.Token] == 1
+			o.mu.Unlock()
+			if first { // answered at once with a retriable status; the attempt that follows waits for its release like any other
+				a.Hold, a.Status = nil, 503
+			}
 		case "reply":
 			a.Kind = "reply"
 		case "stall":
@@ -199,6 +215,9 @@ func runBatch(rt *rapid.T, b batch) {
 	u := mesh.NewUpstream(up, script)
 	defer u.Close()
 	opts := mesh.Opts{Down: down, Up: up, Hosts: []string{u.Addr}, Timeout: routeTimeout}
+	if b.Retry {
+		opts.Retry = &v2.RetryPolicy{RetryPolicyConfig: v2.RetryPolicyConfig{RetryOn: true, NumRetries: 2}}
+	}
 	if !isX && down != up {
 		// protocol conversion needs the transcoder stream filter (without it MOSN answers every request 500: the
 		// cross pairings would exercise nothing), configured the way the repository's own protocol-convert cases are
@@ -470,6 +489,20 @@ func runBatch(rt *rapid.T, b batch) {
 		if r.Script == "late" {
 			classes = append(classes, "late-reply")
 			break
+		}
+	}
+	if b.Retry {
+		retried := 0
+		o.mu.Lock()
+		for _, n := range o.attempts {
+			if n >= 2 {
+				retried++
+			}
+		}
+		o.mu.Unlock()
+		classes = append(classes, "retry-policy:"+b.Pair)
+		if retried > 0 {
+			classes = append(classes, "request-retried-after-503", "request-retried-after-503:"+up)
 		}
 	}
 	canon := []byte(fmt.Sprintf("%s|%d|%v|%v|%d", b.Pair, b.Conns, scriptsOf(b), b.Perm, b.DropConn))
